@@ -49,7 +49,6 @@ import (
 	"io"
 	"math"
 	"math/rand"
-	"os"
 	"reflect"
 	"sort"
 	"strings"
@@ -148,9 +147,11 @@ type c15fConn struct {
 	plan  *c15fPlan
 }
 
-func (c *c15fConn) Prepare(q string) (driver.Stmt, error) { return c.PrepareContext(context.Background(), q) }
-func (c *c15fConn) Close() error                          { return c.inner.Close() }
-func (c *c15fConn) Begin() (driver.Tx, error)             { return c.inner.Begin() }
+func (c *c15fConn) Prepare(q string) (driver.Stmt, error) {
+	return c.PrepareContext(context.Background(), q)
+}
+func (c *c15fConn) Close() error              { return c.inner.Close() }
+func (c *c15fConn) Begin() (driver.Tx, error) { return c.inner.Begin() }
 func (c *c15fConn) BeginTx(ctx context.Context, o driver.TxOptions) (driver.Tx, error) {
 	return c.inner.BeginTx(context.WithoutCancel(ctx), o)
 }
@@ -570,11 +571,11 @@ func c15StaleMap(rng *rand.Rand) map[string]interface{} {
 // ---- one step on the real code ----------------------------------------------------------------------------------
 
 type c15SObs struct {
-	Kind    string    `json:"kind"`            // destination kind for the model: structs|flats|maps|prim|struct1|map1|snaps|count|batches
-	Pre     []c15Elem `json:"pre,omitempty"`   // destination content before the step (reused destinations)
-	Elems   []c15Elem `json:"elems"`           // destination content after the step (snapshots after every row for rows:*)
+	Kind    string    `json:"kind"`          // destination kind for the model: structs|flats|maps|prim|struct1|map1|snaps|count|batches
+	Pre     []c15Elem `json:"pre,omitempty"` // destination content before the step (reused destinations)
+	Elems   []c15Elem `json:"elems"`         // destination content after the step (snapshots after every row for rows:*)
 	RA      int64     `json:"ra"`
-	Err     string    `json:"err,omitempty"`   // "" | notfound | fault | sqlite | other:…
+	Err     string    `json:"err,omitempty"` // "" | notfound | fault | sqlite | other:…
 	Count   int64     `json:"count,omitempty"`
 	Batches [][]int   `json:"batches,omitempty"`
 	Fired   bool      `json:"fired,omitempty"`
@@ -1630,9 +1631,6 @@ func c15SRunScn(r *Result, w *c15SWorld, scn *c15SScn, rng *rand.Rand, pend *[]*
 				r.H("scan.finding", id)
 				r.KnownFinding(id, fmt.Sprintf("%s into a reused destination: %s", st.Path, msg))
 			} else {
-				if os.Getenv("C15_PROBE") != "" {
-					fmt.Fprintln(os.Stderr, "VIOL", st.Path, st.Dest, msg)
-				}
 				r.Violate(Violation{Kind: "e2e", Suite: "scan", Input: scn, Observed: map[string]interface{}{"step": i, "path": st.Path, "dest": st.Dest, "out": obs},
 					Expected: msg, Note: "read path under an iteration fault / NULL cells / a reused destination disagrees with the table"})
 			}
@@ -1680,7 +1678,7 @@ func c15SFlush(r *Result, pend *[]*c15SPending) {
 
 func init() {
 	register("C15", func(r *Result, rng *rand.Rand, tier string) {
-		rounds, maxN := 900, 7
+		rounds, maxN := 2500, 7
 		if tier == "thorough" {
 			rounds, maxN = 30000, 12
 		} else if tier == "search" {
@@ -1701,10 +1699,6 @@ func init() {
 			scn := c15GenSScn(rng, maxN)
 			if i%150 == 0 {
 				r.Sample(map[string]interface{}{"suite": "scan", "input": scn})
-			}
-			if os.Getenv("C15_PROBE") != "" {
-				c15SRunScn(r, w, scn, rng, nil)
-				continue
 			}
 			c15SRunScn(r, w, scn, rng, &pend)
 			if len(pend) > 5000 {
